@@ -685,6 +685,11 @@ func main() {
 					pTX.Do(w, txArg{In: mc.Bin(m)})
 				}
 				f([]byte(bases[i]))
+				if i == 0 {
+					for _, sw := range mc.SpecialWords {
+						f([]byte(sw))
+					}
+				}
 				mc.Mutations1([]byte(bases[i]), mc.AllBytes, f)
 				mc.MutationsTok([]byte(bases[i]), mc.Lookalikes, f)
 			})
